@@ -638,11 +638,12 @@ class Client:
         ret: List[str] = []
         active_script: str = None
         for l in listing.splitlines():
-            m = re.match(rb'"([^"]+)"\s*(.+)', l)
+            m = re.match(rb'"((?:[^"\\]|\\.)*)"\s*(.*)$', l)
             if m is None:
-                ret += [l.strip(b'"').decode("utf-8")]
+                # name sent as a literal
+                ret += [l.decode("utf-8")]
                 continue
-            script = m.group(1).decode("utf-8")
+            script = re.sub(rb"\\(.)", rb"\1", m.group(1)).decode("utf-8")
             if self.__active_expr.match(m.group(2)):
                 active_script = script
                 continue
